@@ -4,7 +4,9 @@ import re
 from acverif.mir import short, tstr, subterms, affine_str
 from acverif.rl import (is_call, peel, peel_all, is_var, is_agg, is_const, self_field, bool_gates, try_gates, discr_gates,
                         reachable_without, must_pass, line_of, decision_table, rewrite, expand_vars, atom, cmp_norm, eq_cond,
-                        var_defs_terms, is_named_const, strip_convs, inline_closures)
+                        var_defs_terms, is_named_const, strip_convs, inline_closures, param_at, param_of_type, unwrapped,
+                        enum_gates, arm_edges, other_edges, result_gates, value_roots, Eval, EvalPanic, Unsupported)
+from acverif.sym import (Sym, summarize, canon, cstr, TooManyPaths, enum_table, teval, row_holds, by_cstr, loop_rows, innermost_loop)
 
 COMP = "nfa::noncontiguous::Compiler::<'a>::"
 
@@ -100,91 +102,161 @@ def bfs_loops(b):
     return out
 
 
+IS_LM = 'util::search::MatchKind::is_leftmost(self.builder.match_kind)'
+
+
+def c_fail_target(place):
+    """canonical store target `self.nfa.states[Y].fail` -> Y"""
+    p = canon(place)
+    if p[0] == 'f' and p[2] == 'fail':
+        base = p[1]
+        if is_call(base, r'Index(Mut)?::index(_mut)?$') and cstr(base[2][0]) == 'self.nfa.states':
+            return base[2][1]
+        if base[0] == 'idx' and cstr(base[1]) == 'self.nfa.states':
+            return base[2]
+    return None
+
+
+def c_state(x):
+    """canonical `self.nfa.states[Y]` -> Y"""
+    x = canon(x)
+    if is_call(x, r'Index(Mut)?::index(_mut)?$') and cstr(x[2][0]) == 'self.nfa.states':
+        return x[2][1]
+    if x[0] == 'idx' and cstr(x[1]) == 'self.nfa.states':
+        return x[2]
+    return None
+
+
+def c_eq(c):
+    """equality test in canonical form -> (a, b) or None"""
+    c = canon(c)
+    if c[0] == 'op' and c[1] == 'Eq':
+        return c[2], c[3]
+    if is_call(c, r'PartialEq::eq$'):
+        return c[2][0], c[2][1]
+    return None
+
+
+class FFT:
+    """The link loops of fill_failure_transitions as iteration summaries."""
+
+    def __init__(self, cx):
+        self.b = b = cx.body(COMP + 'fill_failure_transitions')
+        self.loops = []
+        seen = set()
+        for bi, t in b.calls(r'NFA::next_link$'):
+            h = innermost_loop(b, bi)
+            if h is None or h in seen:
+                continue
+            seen.add(h)
+            rows = loop_rows(cx.facts, b, h)
+            nl = None
+            for r in rows:
+                for c, v in r.conds:
+                    if c[0] == 'discr' and is_call(c[1], r'NFA::next_link$') and v == 1 and c[1][3] == bi:
+                        nl = c[1]
+            if nl is None:
+                continue
+            owner = canon(nl[2][1])
+            link = ('f', ('dc', nl, 'Some'), '0')
+            T = ('call', 'core::ops::Index::index', [('f', ('f', param_at(b, 1), 'nfa'), 'sparse'), link], None)
+            so = cstr(owner)
+            tag = 'depth1' if so == 'self.nfa.special.start_unanchored_id' else ('bfs' if re.search(r'pop_front\(.*\) as Some\)\.0$', so) else 'other')
+            body_rows = [r for r in rows if r.cond(lambda c: c[0] == 'discr' and is_call(c[1], r'NFA::next_link$') and c[1][3] == bi) == 1]
+            self.loops.append({'h': h, 'rows': rows, 'body': body_rows, 'owner': owner, 'X': cstr(('f', T, 'next')), 'Xt': canon(('f', T, 'next')), 'BYTE': cstr(('f', T, 'byte')), 'tag': tag})
+
+    @staticmethod
+    def fail_stores(r):
+        out = []
+        for p, v in r.stores():
+            y = c_fail_target(p)
+            if y is not None:
+                out.append((y, canon(v)))
+        return out
+
+
 def r01_2(cx):
-    b = cx.body(COMP + 'fill_failure_transitions')
-    lm = bool_gates(b, lambda x: is_var(x, 'is_leftmost'))
-    il = b.locals_named('is_leftmost')
-    okl = False
-    if il:
-        d = b.def_term(il[0])
-        okl = d is not None and is_call(d, r'MatchKind::is_leftmost$') and tstr(d[2][0]) == 'self.builder.match_kind'
-    cx.report('R01.2', b, 'is_leftmost', okl, 'is_leftmost = self.builder.match_kind.is_leftmost()' if okl else 'is_leftmost is not derived from the builder\'s match kind')
-    dead_stores = []
-    gen_stores = []
-    for bi, si, tt, v, s in b.field_stores():
-        x = states_fail_store(tt)
-        if x is None:
-            continue
-        if is_named_const(v, r'NFA::DEAD$'):
-            dead_stores.append((bi, x))
-        else:
-            gen_stores.append((bi, x, v))
+    F = FFT(cx)
+    b = F.b
     n = 0
-    for (h, blks, owner, nlb) in bfs_loops(b):
-        back = [(s, h) for s in b.pred(h) if s in blks]
-        ds = [(bi, x) for bi, x in dead_stores if bi in blks]
-        gs = [(bi, x, v) for bi, x, v in gen_stores if bi in blks]
-        cm = [(bi, b.call_term(bi, t)) for bi, t in b.calls(r'NFA::copy_matches$') if bi in blks]
-        tag = 'depth1' if is_var(owner, 'start_uid') else 'bfs'
-        if len(ds) != 1:
-            cx.bad('R01.2', b, 'cut:' + tag, '%d stores of NFA::DEAD into a failure link in the %s loop (expected 1)' % (len(ds), tag))
-            continue
-        n += 1
-        dbi, target = ds[0]
-        mg = bool_gates(b, lambda x: is_match_of(x, target))
-        mg = [g for g in mg if g[0] in blks]
-        lg = [g for g in lm if g[0] in blks]
-        cut1 = [e for g in lg for e in g[2]]
-        cut2 = [e for g in mg for e in g[2]]
-        ok = bool(lg) and bool(mg) and not reachable_without(b, [dbi], cut1, src=h) and not reachable_without(b, [dbi], cut2, src=h)
-        # target is the transition's target state
-        okt = tstr(target) == 't.next'
-        cx.report('R01.2', b, 'cut:' + tag, ok and okt, 'states[t.next].fail = DEAD exactly under is_leftmost && states[t.next].is_match()' if ok and okt else
-                  'the failure-link cut in the %s loop is not guarded by is_leftmost && is_match(t.next) (or cuts another state)' % tag, line_of(b, dbi))
-        # on the leftmost+match edge neither the generic store nor copy_matches for this target is reachable within the iteration
-        others = [bi for bi, x, v in gs] + [bi for bi, ct in cm]
-        if others:
-            okx = True
-            for g in mg:
-                for _, tg in g[2]:
-                    r = b.reach(tg, cut_edges=back)
-                    if set(others) & r:
-                        okx = False
-            cx.report('R01.2', b, 'no-link-after-cut:' + tag, okx, 'a cut match state gets neither a computed failure link nor inherited matches' if okx else 'after the cut the state still receives a computed failure link or inherited matches')
+    for L in F.loops:
+        tag, X = L['tag'], L['X']
+        lm = lambda r: r.cond(IS_LM)
+        im = lambda r: r.cond(lambda c: is_call(canon(c), r'nfa::noncontiguous::State::is_match$') and c_state(canon(c)[2][0]) is not None and cstr(c_state(canon(c)[2][0])) == X)
+        dead = [r for r in L['body'] if any(is_named_const(v, r'NFA::DEAD$') for y, v in F.fail_stores(r))]
+        why = None
+        if not dead:
+            why = 'no path stores NFA::DEAD into a failure link'
+        for r in dead:
+            fs = F.fail_stores(r)
+            if len(fs) != 1 or cstr(fs[0][0]) != X:
+                why = 'the cut writes %s (expected only states[t.next].fail of the transition being visited)' % [tstr(y, 80) for y, v in fs]
+            elif lm(r) is not True:
+                why = 'the cut is reachable without match_kind.is_leftmost() being true'
+            elif im(r) is not True:
+                why = 'the cut is reachable without states[t.next].is_match() being true'
+            elif r.calls(r'NFA::copy_matches$'):
+                why = 'a cut state still inherits matches (copy_matches on the same path)'
+        if why is None:
+            for r in L['body']:
+                if r.calls(r'VecDeque.*::push_back$') and lm(r) is True and im(r) is True and r not in dead:
+                    why = 'a leftmost match state is enqueued without its failure link being cut'
+        if why is None:
+            n += 1
+        cx.report('R01.2', b, 'cut:' + tag, why is None, 'states[t.next].fail = DEAD exactly under is_leftmost && states[t.next].is_match(); the cut state gets no computed link and no inherited matches (%d paths of one iteration)' % len(L['body']) if why is None else
+                  'failure-link cut in the %s loop: %s' % (tag, why))
     cx.floor('R01.2', 'failure-link cuts', n, 2)
 
 
 def r02_2(cx):
-    b = cx.body(COMP + 'fill_failure_transitions')
-    loops = bfs_loops(b)
+    F = FFT(cx)
+    b = F.b
     n = 0
-    for (h, blks, owner, nlb) in loops:
-        back = [(s, h) for s in b.pred(h) if s in blks]
-        for bi, si, tt, v, s in b.field_stores():
-            x = states_fail_store(tt)
-            if x is None or bi not in blks or is_named_const(v, r'NFA::DEAD$'):
+    for L in F.loops:
+        X, BYTE, owner = L['X'], L['BYTE'], L['owner']
+        for r in L['body']:
+            gen = [(y, v) for y, v in F.fail_stores(r) if not is_named_const(v, r'NFA::DEAD$')]
+            if not gen:
                 continue
             n += 1
-            cm = [(cb, b.call_term(cb, t)) for cb, t in b.calls(r'NFA::copy_matches$') if cb in blks]
-            paired = [cb for cb, ct in cm if ct[2][1] == v and ct[2][2] == x and tstr(peel(ct[2][0])) == 'self.nfa']
-            ok = len(paired) == 1
-            if ok:
-                r = b.reach(bi, cut_blocks=[paired[0]], cut_edges=back) - {bi}
-                ok = h not in (r - {paired[0]}) and not any(s0 in r - {paired[0]} for s0, _ in back)
-                # the value is not redefined between the store and the call
-                if is_var(v):
-                    for db, di, t in var_defs_terms(b, v[2]):
-                        if db in b.reach_after(bi, cut_blocks=[paired[0]], cut_edges=back) and db != paired[0]:
-                            ok = False
-            cx.report('R02.2', b, 'inherit', ok, 'states[t.next].fail = f is followed by copy_matches(f, t.next) with the same f and target' if ok else
-                      'the computed failure link is not paired with copy_matches(link, same state) (suffix matches are lost or taken from elsewhere)', line_of(b, bi, si))
-            # f is the result of the failure walk from states[id].fail over t.byte
-            if is_var(v):
-                defs = var_defs_terms(b, v[2])
-                kinds = sorted(tstr(t, 80) for _, _, t in defs)
-                okw = len(defs) == 3 and any(is_call(t, r'NFA::follow_transition$') and t[2][1] == v and tstr(t[2][2]) == 't.byte' for _, _, t in defs) \
-                    and any(t[0] == 'f' and t[2] == 'fail' and 'id' in tstr(t) for _, _, t in defs) and any(t[0] == 'f' and t[2] == 'fail' and tstr(v) in tstr(t) for _, _, t in defs)
-                cx.report('R02.2', b, 'walk', okw, 'f starts at states[id].fail, follows failure links while follow_transition(f, t.byte) == FAIL, then takes that transition' if okw else 'failure walk definitions: %s' % kinds, line_of(b, bi, si))
+            why = None
+            wl = None
+            if len(gen) != 1 or cstr(gen[0][0]) != X:
+                why = 'a computed link is stored into %s (expected states[t.next].fail)' % [tstr(y, 80) for y, v in gen]
+            else:
+                V = gen[0][1]
+                cm = [canon(c) for c in r.calls(r'NFA::copy_matches$')]
+                if not any(cstr(c[2][0]) == 'self.nfa' and cstr(c[2][1]) == cstr(V) and cstr(c[2][2]) == X for c in cm):
+                    why = 'the computed link is not followed by copy_matches(link, t.next) (suffix matches are lost or taken from elsewhere)'
+                elif not (is_call(V, r'NFA::follow_transition$') and cstr(V[2][0]) == 'self.nfa' and V[2][1][0] == 'phi' and cstr(V[2][2]) == BYTE):
+                    why = 'the link is %s, expected follow_transition(f, t.byte) at the end of the failure walk' % tstr(V, 160)
+                else:
+                    PHI = V[2][1]
+                    ent = canon(PHI[3])
+                    oke = ent[0] == 'f' and ent[2] == 'fail' and c_state(ent[1]) is not None and cstr(c_state(ent[1])) == cstr(owner)
+                    exitc = [v for c, v in r.conds if c_eq(c) is not None and {cstr(x) for x in c_eq(c)} == {cstr(V), 'nfa::noncontiguous::NFA::FAIL'}]
+                    if not oke:
+                        why = 'the failure walk starts at %s, expected states[id].fail of the state being expanded' % tstr(ent, 120)
+                    elif exitc != [False]:
+                        why = 'the walk does not end exactly when follow_transition(f, t.byte) != FAIL'
+                    else:
+                        wl = (PHI[1], PHI[2])
+            if why is None and wl is not None:
+                # the walk loop itself: f := states[f].fail while follow_transition(f, byte) == FAIL
+                cur = Sym(cx.facts, b).default_local(wl[1])
+                wr = [x for x in loop_rows(cx.facts, b, wl[0]) if x.end == ('stop', wl[0])]
+                if not wr:
+                    why = 'the failure walk never iterates'
+                for x in wr:
+                    nxt = canon(x.env.get(wl[1], cur))
+                    good = nxt[0] == 'f' and nxt[2] == 'fail' and c_state(nxt[1]) is not None and cstr(c_state(nxt[1])) == cstr(cur)
+                    cc = [v for c, v in x.conds if c_eq(c) is not None and any(is_call(s, r'NFA::follow_transition$') and cstr(s[2][1]) == cstr(cur) for s in c_eq(c)) and any(cstr(s) == 'nfa::noncontiguous::NFA::FAIL' for s in c_eq(c))]
+                    if not good or cc != [True]:
+                        why = 'a step of the failure walk is not f = states[f].fail under follow_transition(f, byte) == FAIL'
+            cx.report('R02.2', b, 'inherit', why is None, 'states[t.next].fail = follow_transition(f, t.byte) after walking f from states[id].fail along failure links, then copy_matches(that link, t.next)' if why is None else
+                      'computed failure link: %s' % why)
+            if why is not None:
+                break
     cx.floor('R02.2', 'computed failure-link stores', n, 1)
     # breadth-first order: states are taken from the front and appended at the back of one queue (a state's failure
     # target is shallower and must be complete before the state copies its matches)
@@ -193,41 +265,80 @@ def r02_2(cx):
     okq = pops == ['pop_front'] and len(pushes) >= 2 and set(pushes) == {'push_back'}
     cx.report('R02.2', b, 'fifo', okq, 'the work queue is FIFO (push_back / pop_front): failure links are computed breadth-first' if okq else 'the work queue is not FIFO (pops %s, pushes %s): failure targets may be used before they are complete' % (pops, pushes))
     # standard semantics: every popped state also inherits the start state's matches (empty pattern)
-    cms = [(cb, b.call_term(cb, t)) for cb, t in b.calls(r'NFA::copy_matches$')]
-    st = [cb for cb, ct in cms if tstr(ct[2][1]) in ('self.nfa.special.start_unanchored_id', 'start_uid') and is_var(ct[2][2], 'id')]
-    lm = bool_gates(b, lambda x: is_var(x, 'is_leftmost'))
-    ok = len(st) == 1 and not reachable_without(b, st, [e for g in lm for e in g[3]])
-    cx.report('R02.2', b, 'start-matches', ok, 'under standard semantics each dequeued state inherits the start state\'s matches' if ok else 'start-state match inheritance is missing or not restricted to standard semantics')
+    why = 'no pop_front loop'
+    for bi, t0 in b.calls(r'VecDeque.*::pop_front$'):
+        h = innermost_loop(b, bi)
+        if h is None:
+            continue
+        why = None
+        rows = [r for r in loop_rows(cx.facts, b, h) if r.end == ('stop', h)]
+        n2 = 0
+        for r in rows:
+            pf = [c[1] for c, v in r.conds if c[0] == 'discr' and is_call(c[1], r'pop_front$') and v == 1]
+            if not pf:
+                continue
+            n2 += 1
+            ID = cstr(('f', ('dc', pf[0], 'Some'), '0'))
+            cm = [canon(c) for c in r.calls(r'NFA::copy_matches$')]
+            has = any(cstr(c[2][0]) == 'self.nfa' and cstr(c[2][1]) == 'self.nfa.special.start_unanchored_id' and cstr(c[2][2]) == ID for c in cm)
+            lm = r.cond(IS_LM)
+            if lm is False and not has:
+                why = 'under standard semantics a dequeued state does not inherit the start state\'s matches'
+            elif lm is True and has:
+                why = 'start-state matches are inherited under leftmost semantics'
+            elif lm is None:
+                why = 'start-state inheritance does not depend on the match kind'
+        if n2 == 0:
+            why = 'no iteration path of the pop_front loop found'
+    cx.report('R02.2', b, 'start-matches', why is None, 'under standard semantics (only) each dequeued state inherits the start state\'s matches' if why is None else why)
 
 
 def r11_5(cx):
-    b = cx.body(COMP + 'fill_failure_transitions')
-    sl = b.locals_named('seen')
-    okq = False
-    if sl:
-        d = b.def_term(sl[0])
+    F = FFT(cx)
+    b = F.b
+    recv = set()
+    n = 0
+    for L in F.loops:
+        X = L['X']
+        why = None
+        k = 0
+        for r in L['body']:
+            pb = [canon(c) for c in r.calls(r'VecDeque.*::push_back$')]
+            if not pb:
+                continue
+            k += 1
+            if len(pb) != 1 or cstr(pb[0][2][1]) != X:
+                why = 'enqueues %s (expected the target of the transition being visited, once)' % [tstr(c[2][1], 80) for c in pb]
+                break
+            co = r.cond(lambda c: is_call(canon(c), r'QueuedSet::contains$') and cstr(canon(c)[2][1]) == X)
+            ins = [canon(c) for c in r.calls(r'QueuedSet::insert$') if cstr(canon(c)[2][1]) == X]
+            if co is not False:
+                why = 'a state is enqueued without !seen.contains(state)'
+            elif len(ins) != 1:
+                why = 'a state is enqueued without seen.insert(state)'
+            else:
+                for c in ins + [canon(c0) for c0, v in r.conds if is_call(canon(c0), r'QueuedSet::contains$')]:
+                    rc = c[2][0]
+                    recv.add(rc[2] if rc[0] == 'v' else cstr(rc))
+            if why:
+                break
+        if k == 0:
+            why = 'no enqueue path'
+        if why is None:
+            n += 1
+        cx.report('R11.5', b, 'enqueue-once:' + L['tag'], why is None, 'queue.push_back(t.next) only under !seen.contains(t.next), always with seen.insert(t.next)' if why is None else
+                  'a state can be enqueued twice (its failure target\'s matches would be inherited twice): %s' % why)
+    cx.floor('R11.5', 'enqueue sites', n, 2)
+    okq = len(recv) == 1 and isinstance(list(recv)[0], int)
+    if okq:
+        d = b.def_term(list(recv)[0])
         okq = d is not None and is_call(d, r'Compiler::queued_set$')
-    cx.report('R11.5', b, 'seen-source', okq, 'seen = self.queued_set()' if okq else 'the visited set is not queued_set()')
+    cx.report('R11.5', b, 'seen-source', okq, 'the visited set is self.queued_set()' if okq else 'the visited set is not (one) queued_set()')
     q = cx.body(COMP + 'queued_set')
     g = bool_gates(q, lambda x: tstr(x) == 'self.builder.ascii_case_insensitive')
     act = [bi for bi, t in q.calls(r'QueuedSet::active$')]
     ok = bool(g) and len(act) == 1 and all(act[0] in q.reach(tg) for x in g for _, tg in x[2])
     cx.report('R11.5', q, 'active-when-folding', ok, 'the visited set is active whenever ASCII case folding is on' if ok else 'queued_set() is not active under ascii_case_insensitive')
-    n = 0
-    for (h, blks, owner, nlb) in bfs_loops(b):
-        pushes = [(bi, b.call_term(bi, t)) for bi, t in b.calls(r'VecDeque.*::push_back$') if bi in blks]
-        for bi, ct in pushes:
-            n += 1
-            x = ct[2][1]
-            ins = [ib for ib, t in b.calls(r'QueuedSet::insert$') if ib in blks and b.call_term(ib, t)[2][1] == x]
-            cg = [gg for gg in bool_gates(b, lambda y: is_call(y, r'QueuedSet::contains$') and y[2][1] == x) if gg[0] in blks]
-            ok = len(ins) == 1 and bool(cg) and not reachable_without(b, [bi], [e for gg in cg for e in gg[3]], src=h)
-            if ok:
-                back = [(s, h) for s in b.pred(h) if s in blks]
-                r = b.reach(bi, cut_blocks=ins, cut_edges=back) - {bi}
-                ok = h not in r - set(ins)
-            cx.report('R11.5', b, 'enqueue-once', ok, 'queue.push_back(x) is guarded by !seen.contains(x) and paired with seen.insert(x)' if ok else 'a state can be enqueued twice (its failure target\'s matches would be inherited twice)', line_of(b, bi))
-    cx.floor('R11.5', 'enqueue sites', n, 2)
     a = cx.body('nfa::noncontiguous::QueuedSet::active')
     t = a.local_term(0, expand=True)
     ok = is_agg(t, r'QueuedSet$') and is_agg(t[3]['set'], r'Option$', 'Some')
